@@ -9,6 +9,7 @@ import (
 	"strings"
 
 	"github.com/ja7ad/otp"
+	"github.com/ja7ad/otp/internal/verifh"
 	"pgregory.net/rapid"
 )
 
@@ -513,7 +514,11 @@ func GenPlan(t *rapid.T, prop string) *Plan {
 	}
 	adversarial := prop == "C19"
 	nConn := rapid.SampledFrom([]int{1, 2, 4, 8}).Draw(t, "nConn")
-	ne := rapid.IntRange(1, 40).Draw(t, "nEvents")
+	maxEv := 40
+	if verifh.Thorough() && weighted(t, "longRun?", 3, 1) == 1 {
+		maxEv = 160 // thorough tier: a quarter of the runs are long histories on one server
+	}
+	ne := rapid.IntRange(1, maxEv).Draw(t, "nEvents")
 	for i := 0; i < ne; i++ {
 		var e Event
 		e.Conn = rapid.IntRange(0, nConn-1).Draw(t, "conn")
